@@ -20,8 +20,12 @@ def denseKind (kind : String) (r : Rle Int) : List Int :=
   else if kind == "bool" then denseInt r true
   else toArrayInt r
 
+/-- floats are reported as bit patterns with -0.0 mapped to +0.0 (equal under IEEE ==; see assumptions) -/
+def nz (kind : String) (l : List Int) : List Int :=
+  if kind == "float" then l.map (fun v => if v == 9223372036854775808 then 0 else v) else l
+
 def rleJ (kind : String) (r : Rle Int) : Json :=
-  Json.mkObj [("events", natList r.events), ("values", intList r.values), ("dense", intList (denseKind kind r))]
+  Json.mkObj [("events", natList r.events), ("values", intList (nz kind r.values)), ("dense", intList (nz kind (denseKind kind r)))]
 
 def getOptNat (j : Json) (k : String) : Except String (Option Nat) := do
   match j.getObjVal? k with
@@ -32,15 +36,15 @@ def getOptNat (j : Json) (k : String) : Except String (Option Nat) := do
 /-- per-chromosome observations of a genome-wide array: `to_dict()` and `get_data()` -/
 def observe (sizes : List Nat) (r : Rle Int) (kind : String) : Json :=
   let sl := chromSlices sizes r
-  let dict := sl.map (denseKind kind)
+  let dict := sl.map (fun s => nz kind (denseKind kind s))
   let data : List (List Int) := (sl.zipIdx.map (fun (s, i) =>
     if kind == "bool" then (dataIntervals (mapRle (· != 0) s)).map (fun x => [(i : Int), (x.1 : Int), (x.2 : Int)])
-    else (dataRecs s).map (fun x => [(i : Int), (x.1 : Int), (x.2.1 : Int), x.2.2]))).flatten
+    else (dataRecs s).map (fun x => [(i : Int), (x.1 : Int), (x.2.1 : Int)] ++ nz kind [x.2.2]))).flatten
   Json.mkObj [("dict", intListList dict), ("data", intListList data)]
 
-def specObserve (sizes : List Nat) (leaf : List (Nat × Rec Int)) : Json :=
+def specObserve (kind : String) (sizes : List Nat) (leaf : List (Nat × Rec Int)) : Json :=
   let d := (sizes.zipIdx.map (fun (sz, i) =>
-    specDense (0 : Int) ((leaf.filter (fun x => x.1 == i)).map (·.2)) sz))
+    nz kind (specDense (0 : Int) ((leaf.filter (fun x => x.1 == i)).map (·.2)) sz)))
   Json.mkObj [("dict", intListList d)]
 
 def leafTrack (sizes : List Nat) (recs : List (Nat × Rec Int)) : Rle Int :=
@@ -49,6 +53,12 @@ def leafTrack (sizes : List Nat) (recs : List (Nat × Rec Int)) : Rle Int :=
 def leafMask (sizes : List Nat) (ivs : List (Nat × Rec Int)) : Rle Int :=
   let g := (toGlobal sizes ivs).map (fun x => (x.1, x.2.1))
   mapRle b2i (_root_.C08.mask g (sizes.sum))
+
+/-- `GenomicIntervals.get_pileup()`: counting is npstructures' (specified: per-base count); run boundaries of the
+external result are not modelled, so for these leaves only dense values are compared -/
+def leafPileup (sizes : List Nat) (ivs : List (Nat × Rec Int)) : Rle Int :=
+  let g := (toGlobal sizes ivs).map (fun x => (x.1, x.2.1))
+  canonRle ((_root_.C08.getPileup _root_.C08.specPileup g sizes.sum).map Int.ofNat)
 
 partial def evalTree (leaves : Array GArr) (t : Json) : Except String GArr := do
   let tag ← getStr t "t"
@@ -64,6 +74,47 @@ partial def evalTree (leaves : Array GArr) (t : Json) : Except String GArr := do
   | "scl" => pure (GArr.scalarL (← getStr t "f") (← getInt t "k") (← evalTree leaves (← t.getObjVal? "a")))
   | _ => throw s!"tree tag {tag}"
 
+/-! float expression trees: the same engine specification over IEEE doubles (Lean `Float` = C double in the compiled
+driver); `join_runs` compares with IEEE `==` -/
+structure FVal where
+  bits : UInt64
+
+instance : BEq FVal := ⟨fun a b => Float.ofBits a.bits == Float.ofBits b.bits⟩
+
+def fop (f : String) (x y : FVal) : FVal :=
+  let a := Float.ofBits x.bits
+  let b := Float.ofBits y.bits
+  ⟨(match f with | "add" => a + b | "sub" => a - b | "mul" => a * b | _ => 0.0).toBits⟩
+
+def fcmp (f : String) (x y : FVal) : Bool :=
+  let a := Float.ofBits x.bits
+  let b := Float.ofBits y.bits
+  match f with | "lt" => a < b | "gt" => a > b | "eq" => a == b | _ => false
+
+def fneg (x : FVal) : FVal := ⟨(-(Float.ofBits x.bits)).toBits⟩
+
+def fscalar (v : Json) : Except String FVal := do
+  match v with
+  | Json.num n => pure ⟨n.toFloat.toBits⟩
+  | _ => throw "scalar"
+
+partial def evalTreeF (leaves : Array (Rle FVal)) (t : Json) : Except String (Rle FVal) := do
+  let tag ← getStr t "t"
+  match tag with
+  | "leaf" =>
+    match leaves[(← getNat t "i")]? with
+    | some g => pure g
+    | none => throw "leaf index"
+  | "un" => pure (mapRle fneg (← evalTreeF leaves (← t.getObjVal? "a")))
+  | "bin" => pure (zipRle (fop (← getStr t "f")) (← evalTreeF leaves (← t.getObjVal? "a")) (← evalTreeF leaves (← t.getObjVal? "b")))
+  | "scr" =>
+    let k ← fscalar (← t.getObjVal? "k")
+    let f ← getStr t "f"
+    pure (mapRle (fun x => fop f x k) (← evalTreeF leaves (← t.getObjVal? "a")))
+  | _ => throw s!"float tree tag {tag}"
+
+def normBits (b : UInt64) : Int := if b == 0x8000000000000000 then 0 else Int.ofNat b.toNat
+
 def handle (op : String) (j : Json) : Except String Json := do
   match op with
   | "rle_bedgraph" =>
@@ -72,18 +123,18 @@ def handle (op : String) (j : Json) : Except String Json := do
     let kind ← getStr j "kind"
     let r := fromBedgraph (0 : Int) recs size
     let n := match size with | some n => n | none => lastStop recs
-    pure (reply (rleJ kind r) (some (Json.mkObj [("dense", intList (specDense (0 : Int) recs n))])))
+    pure (reply (rleJ kind r) (some (Json.mkObj [("dense", intList (nz kind (specDense (0 : Int) recs n)))])))
   | "from_intervals_arr" =>
     let recs ← toRecs (← getIntListList j "recs")
     let size ← getNat j "size"
     let kind ← getStr j "kind"
     let r := fromIntervalsArr (recs.map (·.1)) (recs.map (·.2.1)) size (recs.map (·.2.2)) (0 : Int)
-    pure (reply (rleJ kind r) (some (Json.mkObj [("dense", intList (specDense (0 : Int) recs size))])))
+    pure (reply (rleJ kind r) (some (Json.mkObj [("dense", intList (nz kind (specDense (0 : Int) recs size)))])))
   | "track" | "geo_track" =>
     let sizes ← getNatList j "sizes"
     let recs ← toCRecs (← getIntListList j "recs")
     let kind ← getStr j "kind"
-    pure (reply (observe sizes (leafTrack sizes recs) kind) (some (specObserve sizes recs)))
+    pure (reply (observe sizes (leafTrack sizes recs) kind) (some (specObserve kind sizes recs)))
   | "expr" =>
     let sizes ← getNatList j "sizes"
     let leavesJ ← getArr j "leaves"
@@ -91,10 +142,17 @@ def handle (op : String) (j : Json) : Except String Json := do
       let k ← getStr l "kind"
       let recs ← toCRecs (← getIntListList l "recs")
       if k == "mask" then pure (GArr.mk (leafMask sizes recs) true)
+      else if k == "pileup" then pure (GArr.mk (leafPileup sizes recs) false)
       else pure (GArr.mk (leafTrack sizes recs) false))
     let g ← evalTree leaves.toArray (← j.getObjVal? "tree")
     let obs := observe sizes g.rle (if g.isBool then "bool" else "int")
-    let red := match j.getObjVal? "red" with
+    let idx ← match j.getObjVal? "idx" with
+      | .ok (Json.null) => pure []
+      | .ok t => do
+        let mk ← evalTree leaves.toArray t
+        pure [("idx", intList (selectMask (denseInt g.rle g.isBool) ((denseInt mk.rle true).map (· != 0))))]
+      | .error _ => pure []
+    let red := idx ++ match j.getObjVal? "red" with
       | .ok (Json.str "sum") => [("sum", int (sumRle g.rle))]
       | .ok (Json.arr bins) =>
         match (bins.toList.mapM (·.getInt?)) with
@@ -102,6 +160,29 @@ def handle (op : String) (j : Json) : Except String Json := do
         | .error _ => []
       | _ => []
     pure (reply (obs.mergeObj (Json.mkObj ([("bool", Json.bool g.isBool)] ++ red))))
+  | "expr_f" =>
+    let sizes ← getNatList j "sizes"
+    let leavesJ ← getArr j "leaves"
+    let leaves ← leavesJ.mapM (fun l => do
+      let k ← getStr l "kind"
+      let recs ← toCRecs (← getIntListList l "recs")
+      let r := leafTrack sizes recs
+      if k == "float" then pure (mapRle (fun (v : Int) => FVal.mk (UInt64.ofNat v.toNat)) r)
+      else pure (mapRle (fun (v : Int) => FVal.mk (Float.ofInt v).toBits) r))
+    let tree ← j.getObjVal? "tree"
+    let isCmp := (match getStr tree "t", getStr tree "f" with
+      | .ok "bin", .ok f => ["lt", "gt", "eq"].contains f
+      | _, _ => false)
+    if isCmp then
+      let a ← evalTreeF leaves.toArray (← tree.getObjVal? "a")
+      let b ← evalTreeF leaves.toArray (← tree.getObjVal? "b")
+      let g := zipRle (fcmp (← getStr tree "f")) a b
+      pure (reply ((observe sizes (mapRle b2i g) "bool").mergeObj (Json.mkObj [("bool", Json.bool true)])))
+    else
+      let g ← evalTreeF leaves.toArray tree
+      -- values as normalised bit patterns; the 64-bit words go through the same xor-accumulate expansion
+      let r : Rle Int := mapRle (fun v => normBits v.bits) g
+      pure (reply ((observe sizes r "float").mergeObj (Json.mkObj [("bool", Json.bool false)])))
   | _ => throw s!"C09: unknown op {op}"
 
 end Drv.C09
